@@ -1927,6 +1927,128 @@ end DpapiNg.Gen
     return out
 
 
+# ---------------------------------------------------------------------------------------------
+# Unpack plan of DPAPINGBlob.unpack: the split at the outer ContentInfo, `if a or b …: raise ValueError` rejection tests,
+# `x = Cls.unpack(<attribute path>)`, aliases, `e or b""` / `e or remaining_data.tobytes()` fallbacks and the keyword table of the
+# final constructor call become a `List UPlan.Step × List (String × UPlan.UExpr)`; `Proofs/UPlan.lean` proves `Blob.blobUnpack` is
+# the interpretation of the plan.
+KERNELS += [
+    dict(name="UPlanBlob", props=["C06", "C05", "C04"], file="_blob.py", func="DPAPINGBlob.unpack", kind="uplan", loc=("uplan",), model="Blob.blobUnpackPlan",
+         imports=["Proofs.UPlan"], typ="List UPlan.Step × List (String × UPlan.UExpr)"),
+]
+_SPLIT = ["view = memoryview(data)", "header = ASN1Reader(view).peek_header()",
+          "{x} = ContentInfo.unpack(view[:header.tag_length + header.length], header=header)", "remaining_data = view[header.tag_length + header.length:]"]
+
+
+def uplan(fn, blob_tree, cms_tree):
+    body = [st for st in fn.body if not (isinstance(st, ast.Expr) and isinstance(st.value, ast.Constant))]
+    if [a.arg for a in fn.args.args] != ["cls", "data"]:
+        raise Unsupported("unpack parameters")
+    consts = dict(_class_consts(cms_tree), **_class_consts(blob_tree))
+
+    def ex(e):
+        if isinstance(e, ast.Name):
+            return f'(.var "{e.id}")'
+        if isinstance(e, ast.Attribute):
+            return f'(.attr {ex(e.value)} "{e.attr}")'
+        if isinstance(e, ast.Subscript) and isinstance(e.slice, ast.Constant) and e.slice.value == 0:
+            return f"(.first {ex(e.value)})"
+        if isinstance(e, ast.BoolOp) and isinstance(e.op, ast.Or) and len(e.values) == 2:
+            rhs = ast.unparse(e.values[1])
+            if rhs == "b''":
+                return f"(.orEmpty {ex(e.values[0])})"
+            if rhs == "remaining_data.tobytes()":
+                return f"(.orRest {ex(e.values[0])})"
+        raise Unsupported(f"expression {ast.unparse(e)[:60]}")
+
+    def cond(c):
+        if isinstance(c, ast.Compare) and len(c.ops) == 1 and isinstance(c.ops[0], ast.NotEq):
+            l, r = c.left, c.comparators[0]
+            if isinstance(l, ast.Call) and ast.unparse(l.func) == "len" and len(l.args) == 1 and isinstance(r, ast.Constant) and isinstance(r.value, int):
+                return f".lenNe {ex(l.args[0])} {r.value}"
+            if isinstance(r, ast.Constant) and isinstance(r.value, int) and not isinstance(r.value, bool):
+                return f".intNe {ex(l)} {r.value}"
+            if ast.unparse(r) in consts:
+                return f".oidNe {ex(l)} {_oid_arcs(consts[ast.unparse(r)])}"
+        if isinstance(c, ast.UnaryOp) and isinstance(c.op, ast.Not):
+            o = c.operand
+            if isinstance(o, ast.Call) and ast.unparse(o.func) == "isinstance" and len(o.args) == 2 and isinstance(o.args[1], ast.Name):
+                return f'.notInstance {ex(o.args[0])} "{o.args[1].id}"'
+            return f".falsy {ex(o)}"
+        raise Unsupported(f"condition {ast.unparse(c)[:60]}")
+    steps, i = [], 0
+    if len(body) >= 4 and isinstance(body[2], ast.Assign) and isinstance(body[2].targets[0], ast.Name):
+        x = body[2].targets[0].id
+        if [ast.unparse(b) for b in body[:4]] == [t.format(x=x) for t in _SPLIT]:
+            steps.append(f'.split "{x}"')
+            i = 4
+    if not steps:
+        raise Unsupported("the function does not start with the split at the outer ContentInfo")
+    while i < len(body) - 1:
+        st = body[i]
+        if isinstance(st, ast.If) and not st.orelse and len(st.body) == 1 and isinstance(st.body[0], ast.Raise) \
+                and isinstance(st.body[0].exc, ast.Call) and ast.unparse(st.body[0].exc.func) == "ValueError":
+            t = st.test
+            conds = t.values if isinstance(t, ast.BoolOp) and isinstance(t.op, ast.Or) else [t]
+            steps.append(".reject [" + ", ".join(cond(c) for c in conds) + "]")
+        elif isinstance(st, ast.Assign) and len(st.targets) == 1 and isinstance(st.targets[0], ast.Name):
+            x, v = st.targets[0].id, st.value
+            if isinstance(v, ast.Call) and isinstance(v.func, ast.Attribute) and v.func.attr == "unpack" and isinstance(v.func.value, ast.Name) \
+                    and len(v.args) == 1 and not v.keywords:
+                steps.append(f'.unpack "{x}" "{v.func.value.id}" {ex(v.args[0])}')
+            else:
+                steps.append(f'.alias "{x}" {ex(v)}')
+        else:
+            raise Unsupported(f"statement {ast.unparse(st)[:60]}")
+        i += 1
+    ret = body[-1]
+    if not (isinstance(ret, ast.Return) and isinstance(ret.value, ast.Call) and ast.unparse(ret.value.func) == "DPAPINGBlob" and not ret.value.args):
+        raise Unsupported("the function does not end with `return DPAPINGBlob(kw=…)`")
+    table = [f'("{kw.arg}", {ex(kw.value)})' for kw in ret.value.keywords]
+    return steps, table
+
+
+def generate_uplan(k: dict) -> dict:
+    out = {"name": k["name"], "file": k["file"], "func": k["func"]}
+    try:
+        blob_tree = ast.parse(open(os.path.join(SRC, "_blob.py")).read())
+        cms_tree = ast.parse(open(os.path.join(SRC, "_pkcs7.py")).read())
+        fn = find_function(blob_tree, k["func"])
+        out["line"] = fn.lineno
+        steps, table = uplan(fn, blob_tree, cms_tree)
+        out["python"] = f"{k['func']}: unpack plan of {len(steps)} step(s)"
+    except (Unsupported, OSError, SyntaxError, ValueError, LookupError) as e:
+        out["status"] = "unsupported"
+        out["reason"] = f"{type(e).__name__}: {e}"
+        p = os.path.join(GEN_DIR, k["name"] + ".lean")
+        if os.path.exists(p):
+            os.remove(p)
+        return out
+    name = k["name"]
+    body = "([" + ",\n    ".join(steps) + "],\n   [" + ",\n    ".join(table) + "])"
+    lean = f"""-- GENERATED by harness/extract.py from src/dpapi_ng/{k['file']}:{out['line']} ({k['func']}) — do not edit.
+import DpapiNg.Proofs.UPlan
+namespace DpapiNg.Gen
+open DpapiNg DpapiNg.UPlan
+
+def {name} : List Step × List (String × UExpr) :=
+  {body}
+
+theorem {name}_eq : {name} = {k['model']} := by
+  rfl
+
+end DpapiNg.Gen
+"""
+    os.makedirs(GEN_DIR, exist_ok=True)
+    p = os.path.join(GEN_DIR, name + ".lean")
+    old = open(p).read() if os.path.exists(p) else None
+    if old != lean:
+        with open(p, "w") as f:
+            f.write(lean)
+    out.update(status="generated", lean_path=p, lean_def=body.replace("\n    ", " ").replace("\n   ", " "), module=f"DpapiNg.Gen.{name}", sha=hashlib.sha256(lean.encode()).hexdigest()[:16])
+    return out
+
+
 def register(k: dict) -> None:
     KERNELS.append(k)
 
@@ -1955,6 +2077,8 @@ def generate(k: dict) -> dict:
         return generate_callkw(k)
     if k.get("kind") in ("bplan", "bschema"):
         return generate_bplan(k)
+    if k.get("kind") == "uplan":
+        return generate_uplan(k)
     path = os.path.join(SRC, k["file"])
     out = {"name": k["name"], "file": k["file"], "func": k["func"]}
     try:
